@@ -33,6 +33,7 @@ class EndSock:
         self.cv = threading.Condition()
         self.timeout = None
         self.closed = False        # we closed
+        self._closed = False       # attribute Transport.stop_thread() looks at
         self.eof = False           # peer closed / link cut towards us
         self.nsent = 0
         self.fail_send = None      # exception to raise on send (fault injection)
